@@ -139,3 +139,25 @@ reg(Check("C01", "model_checking",
                  Part("reload", SRV, "^TestVerifC01Reload$", instr=True, shards=(4, 8), deadline=(240, 1500)),
                  Part("crash", SRV, "^TestVerifC01Crash$", instr=True),
                  Part("fault", SRV, "^TestVerifC01Fault$", instr=True)]))
+
+XS_NOTE = ("explicit-state BFS: a state is a request history; every successor is computed by booting a fresh real server on the "
+           "reference store under the canonical schedule, replaying the history and applying one more request; states are "
+           "deduplicated on a canonical dump of store rows + cached topic state + attachment tables; on dedup hits the "
+           "successors of both histories are compared (key-soundness)")
+reg(Check("C06", "model_checking",
+          "BFS over histories of {sub, set-self, set-other, del-sub, leave, unsub, del-topic, set public/defacs/tags, reload} by 4 users "
+          "on one group topic (alphabet ~70 ops quick / ~110 thorough, modes from a 4-6 element menu), depth 3 quick / 4 thorough; "
+          "invariant and step oracle on every transition; states/transitions counted by the search",
+          ["canonical (zero-deviation) schedule only", "4 users, fixed mode menu, subscriber limit 3"],
+          text=XS_NOTE, note="trusted: memdb store contract, instrumenter/scheduler; deeper histories beyond the bound are not covered",
+          technique="explicit-state model checking over the real handlers (BFS by replay, invariant + step oracle)",
+          engine="E2 xstate", claimed=False,
+          parts=[Part("acl", SRV, "^TestVerifC06Acl$", instr=True, gomaxprocs=16, deadline=(300, 2400))]))
+reg(Check("C07", "model_checking",
+          "same search as C06 with the authorisation-table step oracle: who may change whose granted/requested mode, "
+          "default vs restored grants, J needed to attach, subscriber limit",
+          ["canonical schedule only", "4 users, fixed mode menu, subscriber limit 3; P2P/me/fnd/sys rules are decided by the p2p model part"],
+          text=XS_NOTE, note="trusted: memdb store contract, instrumenter/scheduler",
+          technique="explicit-state model checking over the real handlers (BFS by replay, step oracle)",
+          engine="E2 xstate", claimed=False,
+          parts=[Part("acl", SRV, "^TestVerifC07Acl$", instr=True, gomaxprocs=16, deadline=(300, 2400))]))
